@@ -351,6 +351,7 @@ class Sym(Interp):
         if self.inline(func) and func.qname not in ctx.stack:
             r = super().call_repo(func, selfobj, args, kwargs, n, env, ctx)
             f.result = T(r) if r is not None else NONE
+            self.propagate_inplace(func, n, env, ctx)
             return r
         # uninterpreted, arguments keyed by parameter name where the binding is unambiguous
         posparams = func.posparams[1:] if func.is_method else func.posparams
@@ -365,6 +366,40 @@ class Sym(Interp):
         if func.name == "__init__" and selfobj is not None:
             return NONE
         return t
+
+    def propagate_inplace(self, func, n, env, ctx):
+        """an inlined helper that updates one of its array arguments in place (store / mutating method on the
+        parameter) has updated the caller's object: rebind the caller's variable to the updated term"""
+        summ, bound = self._last_call
+        posparams = func.posparams[1:] if func.is_method else func.posparams
+        argnodes = {}
+        if isinstance(n, ast.Call):
+            for p_, a in zip(posparams, n.args):
+                argnodes[p_] = a
+            for k in n.keywords:
+                if k.arg:
+                    argnodes[k.arg] = k.value
+        for p_, out in summ.params_out.items():
+            if p_ not in bound or p_ not in argnodes:
+                continue
+            t_in, t_out = T(bound[p_]), T(out)
+            if t_out == t_in:
+                continue
+
+            def rooted(t):
+                # does the updated value consist of in-place updates of the value that came in?
+                while isinstance(t, tuple) and t:
+                    if t == t_in:
+                        return True
+                    if t[0] in ("store", "mut", "shuffled"):
+                        t = t[1]
+                    elif t[0] == "phi":
+                        return rooted(t[2]) or rooted(t[3])
+                    else:
+                        return False
+                return False
+            if rooted(t_out) and isinstance(argnodes[p_], (ast.Name, ast.Attribute, ast.Subscript)):
+                self.rebind(argnodes[p_], out, env, ctx)
 
     def apply(self, fv, args, kwargs, n, env, ctx):
         if isinstance(fv, ClassRef):
